@@ -1,6 +1,7 @@
 import J5V.Go.Hex
 import J5V.Rules.Meaning
 import J5V.Rules.Reader
+import J5V.Rules.Root
 /-!
 # Line protocol of the rules cluster: op decoding, canonical printers, the small regex class
 
@@ -80,6 +81,9 @@ def decodeLR (tok : String) : Option LRPayload :=
     else none
   | _ => none
 
+def showNamesList (l : List String) : String :=
+  if l.isEmpty then "~" else String.intercalate "," (l.map hexStr)
+
 def decodeSpec (num : Nat) (toks : List String) : Option Property := do
   let m ← parseKV toks
   let name ← unhexStr (m.get "name")
@@ -158,6 +162,39 @@ def decodeSpec (num : Nat) (toks : List String) : Option Property := do
     else pure (FieldSchema.single item)
   pure { name := name, number := num, required := m.get "req" == "1", explicitlyOptional := m.get "opt" == "1",
          description := desc.getD "", schema := schema }
+
+/-! ## the root segment of a schema op -/
+
+structure RootSeg where
+  decl : RootDecl            -- without properties
+  barEntity : Option String  -- entity annotation put on the fixed object `foo.v1.Bar` (part KEYS)
+
+/-- `root=<obj|oneof> desc=<hex|~> ent=<hex|~> part=<n|~> anym=<hex,..|~> barent=<hex|~>`; the old
+forms `~` / `<hex description>` denote a plain object -/
+def decodeRoot (seg : String) : Option RootSeg :=
+  if seg == "~" then some { decl := { name := "Foo", properties := [] }, barEntity := none }
+  else if !seg.contains '=' then
+    (unhexStr seg).map fun d => { decl := { name := "Foo", description := d, properties := [] }, barEntity := none }
+  else do
+    let m ← parseKV (seg.splitOn " " |>.filter (· ≠ ""))
+    let kind ← (match m.get "root" with | "obj" => some RootKind.object | "oneof" => some .oneof | _ => none)
+    let desc ← optStr (m.get "desc")
+    let ent ← optStr (m.get "ent")
+    let part ← optNat (m.get "part")
+    let anym ← strList (m.get "anym")
+    let barent ← optStr (m.get "barent")
+    -- `entity.part` not written = ENTITY_PART_UNSPECIFIED; `entity.entity` not written = ""
+    let entity : Option EntityObject :=
+      if ent.isNone && part.isNone then none else some { entity := ent.getD "", part := part.getD 0 }
+    pure { decl := { kind := kind, name := "Foo", description := desc.getD "", entity := entity, anyMember := anym,
+                     properties := [] },
+           barEntity := barent }
+
+def showRoot (r : RootDecl) : String :=
+  let kind := match r.kind with | .object => "obj" | .oneof => "oneof"
+  let desc := if r.description.isEmpty then "~" else hexStr r.description
+  let (ent, part) := match r.entity with | some e => (hexStr e.entity, toString e.part) | none => ("~", "~")
+  s!"root={kind} name={hexStr r.name} desc={desc} ent={ent} part={part} anym={showNamesList r.anyMember}"
 
 /-! ## canonical dump of the emitted constraint (same text as the harness's `dumpFC`) -/
 
